@@ -43,6 +43,12 @@ OutA == PropagationDesign(blank, masking)
 \* A. pure propagation
 PropagationThm == MaskRule(rows, cols, blank, OutA, grid, box, masking)
 
+\* clause (ii) read from the far pixels = clause (ii) read from the blank
+\* output pixels (the form BaneMaps_Trace evaluates), for extreme outputs
+ReadingsAgree ==
+    \A out \in {OutA, Pixels(rows, cols), {}, blank} :
+        FarFinite(rows, cols, blank, out, grid, box) <=> FarFiniteC(blank, out, grid, box)
+
 \* B. node/box design (only evaluated when CheckDesign; cuts = {} otherwise)
 DesignThms(outB) ==
     /\ MaskRule(rows, cols, blank, outB, grid, box, masking)
